@@ -57,7 +57,8 @@ class ParseRecv(ICommParseRecv):
         _bytes = b""
 
         # chan info
-        nlen = len(chan.data.name)
+        name = bytes(chan.data.name, "utf-8")
+        nlen = len(name)
         _bytes += struct.pack(
             f"?BBBB{nlen}s",
             chan.data.en,
@@ -65,7 +66,7 @@ class ParseRecv(ICommParseRecv):
             chan.data.vdim,
             chan.data.div,
             chan.data.mlen,
-            bytes(chan.data.name, "utf-8"),
+            name,
         )
 
         return _bytes
